@@ -51,6 +51,9 @@ def _run_hypothesis_shard(sub, tier, seed, shard, n_cases):
     import hypothesis
     from hypothesis import HealthCheck, Phase, given, settings
 
+    import warnings
+    from hypothesis.errors import HypothesisWarning
+    warnings.simplefilter("ignore", HypothesisWarning)
     rec = Recorder()
     last = {}
     failures = []
